@@ -6,6 +6,7 @@ https://github.com/sutoiku/formula.js/blob/master/lib/logical.js
 from . import dispatcher
 from . import error
 from . import utils
+from .operators import ExcelComparator
 
 
 def first_error(values):
@@ -70,10 +71,9 @@ def OR(*args):
 
 
 def switch_equal(target, case):
-    # a logical never equals a number (Python's True == 1)
-    if isinstance(target, bool) != isinstance(case, bool):
-        return False
-    return target == case
+    # equal as the = operator finds them: a logical never equals a number (Python's True == 1), a
+    # blank equals 0, FALSE and empty text, a date-time its serial number
+    return ExcelComparator(target) == case
 
 
 @dispatcher.register_for('SWITCH')
